@@ -2,7 +2,7 @@
    vm_compute: one JSON case in, one JSON observation out *)
 From Coq Require Import List NArith ZArith Bool.
 From D2P Require Import Str Err Json Xml TableTypes Tables Fmt NumFmt Bullets Merge
-     Collector Walk Iter Output Codec.
+     Collector Walk Iter Output Codec Paths Package Content.
 Import ListNotations.
 Open Scope N_scope.
 
@@ -41,6 +41,41 @@ Definition numfn_of_N (n : N) : option numfn :=
 
 Definition bad_case : jt := JL [JN 2].
 
+(* ---------- whole packages ---------- *)
+Definition dec_member (t : jt) : option (str * member) :=
+  match t with
+  | JL [n; JL [JN 0; r]] => n' <~ get_str n ;; r' <~ dec_rnode r ;; Some (n', MXml r')
+  | JL [n; JL [JN 1; JN id]] => n' <~ get_str n ;; Some (n', MRaw id)
+  | _ => None
+  end.
+Definition dec_archive (t : jt) : option archive :=
+  obind (get_list t) (map_opt dec_member).
+
+Definition enc_frec (f : frec) : jt :=
+  JL [jstr (f_id f); jstr (f_type f); jstr (f_target f); jstr (f_dir f); jstr (f_path f)].
+
+Definition enc_str_rose (t : rose str) : res jt := enc_rose (fun s => Ok (jstr s)) t.
+
+Definition observe_type (a : archive) (o : opts) (ty : str) : jt :=
+  enc_res (p <- pars_of a o ty ;;
+           pj <- enc_rose (enc_par (o_html o)) p ;;
+           r <- get_par_strings (o_html o) p ;;
+           rj <- enc_str_rose r ;;
+           t <- join_runs r ;;
+           tj <- enc_str_rose t ;;
+           Ok (JL [pj; rj; tj])).
+
+Definition observe_package (a : archive) (o : opts) : jt :=
+  JL [enc_res (fs <- files a ;; Ok (jlist enc_frec fs));
+      jlist (observe_type a o) part_order;
+      enc_res (s <- text a o ;; Ok (jstr s));
+      enc_res (c <- core_properties a ;;
+               Ok (jopt (jlist (fun kv => JL [jstr (fst kv); enc_ostr (snd kv)])) c));
+      enc_res (i <- images a ;; Ok (jlist (fun kv => JL [jstr (fst kv); JN (snd kv)]) i));
+      enc_res (c <- comments a o ;;
+               Ok (jopt (jlist (fun q => match q with (r, au, d, t) =>
+                                           JL [jstr r; jstr au; jstr d; jstr t] end)) c))].
+
 Definition run_case (c : jt) : jt :=
   match c with
   | JL [JN 1; html; dup; rels; numtbl; root] =>
@@ -55,6 +90,17 @@ Definition run_case (c : jt) : jt :=
   | JL [JN 3; JN fn; z] =>
       match numfn_of_N fn, dec_Z z with
       | Some f, Some z => enc_res (s <- apply_numfn f z ;; Ok (jstr s))
+      | _, _ => bad_case
+      end
+  | JL [JN 5; html; dup; arch] =>
+      match get_bool html, get_bool dup, dec_archive arch with
+      | Some h, Some d, Some a => observe_package a {| o_html := h; o_dup := d |}
+      | _, _, _ => bad_case
+      end
+  | JL [JN 6; dir; target] =>
+      match get_str dir, get_str target with
+      | Some d, Some t => JL [jstr (file_path d t); jstr (rels_path (file_path d t));
+                              jstr (path_name t); jstr (dir_of_member t)]
       | _, _ => bad_case
       end
   | JL [JN 4; nested] =>
